@@ -245,6 +245,9 @@ pub fn configurations(tier: Tier, seed: u64) -> Vec<EnumCase> {
     // a player blocked for whole turn rows at both ends of the deck, blocked positions at scope edges
     v.push(EnumCase::collect("edges", flop("Kh7d7c"), vec![combos_of("AsAh,2d2c:0.5"), combos_of("AdAc,2s2h,As2c:0.25")]));
     v.push(EnumCase::collect("one-player-one-combo", flop("AsKsQs"), vec![combos_of("2c2d")]));
+    // a player without any hand: every scoped run is empty, and none may panic
+    v.push(EnumCase::collect("empty-range-second", flop("Kh7d7c"), vec![combos_of("AsAh,2d2c"), vec![]]));
+    v.push(EnumCase::parsed("empty-range-parsed", flop("Jh9d3c"), &["AKx", "QQ,JTs"]));
     let mut rng = Rng::derive(seed, "c04-configs", 0);
     for i in 0..tier.pick(3, 17) {
         let players = 1 + rng.usize_below(3);
@@ -368,6 +371,18 @@ pub fn run(ctx: &Ctx) -> Report {
             Job::Rescope { cfg, n, index } => {
                 let base = &bases[*cfg];
                 let mut rng = Rng::derive(seed, "c04-rescope", mix2(*cfg as u64, *index));
+                // the special second scopes: the whole line again, the same scope twice, an empty scope
+                let whole: Scope = ((0, 1), TERMINAL);
+                for _ in 0..6 {
+                    let a = rng.usize_below(POSITIONS + 1);
+                    let b = a + rng.usize_below(POSITIONS - a + 1);
+                    let narrow: Scope = (from_linear(a), from_linear(b));
+                    check_rescope(base, narrow, whole, report);
+                    check_rescope(base, whole, narrow, report);
+                    check_rescope(base, narrow, narrow, report);
+                    check_rescope(base, narrow, (narrow.1, narrow.1), report);
+                    check_rescope(base, whole, whole, report);
+                }
                 for _ in 0..*n {
                     let pick = |rng: &mut Rng| {
                         let a = rng.usize_below(POSITIONS + 1);
@@ -384,11 +399,17 @@ pub fn run(ctx: &Ctx) -> Report {
     for r in results {
         report.merge(r);
     }
+    // configurations too large to drain: the unscoped run and runs scoped to a prefix of the line agree on
+    // their first showdowns
+    prefix_agreement_on_huge_products(ctx, &mut report);
     // a subset again in the dev profile: scope()'s debug assertions must accept every valid scope
     if !bases.is_empty() {
         debug_profile_pass(ctx, &bases[0], &mut report);
         if bases.len() > 2 {
             debug_profile_pass(ctx, &bases[2], &mut report);
+        }
+        if bases.len() > 4 {
+            debug_profile_pass(ctx, &bases[4], &mut report);
         }
     }
     child::cleanup_scratch();
@@ -404,6 +425,42 @@ pub fn run(ctx: &Ctx) -> Report {
     }
     report.assumptions.push("scopes with to before from are outside the statement and not exercised".into());
     report
+}
+
+/// "An evaluator scoped to [from,to) yields exactly those showdowns of the unscoped evaluator whose board
+/// lies in [from,to), position by position": for products of range sizes beyond 2^32 only a prefix can be
+/// compared, which is enough to see an evaluator whose bookkeeping overflows.
+fn prefix_agreement_on_huge_products(ctx: &Ctx, report: &mut Report) {
+    let mut rng = Rng::derive(ctx.seed, "c04-huge", 0);
+    let k = ctx.tier.pick(30_000usize, 300_000);
+    for (label, sizes) in [("huge-3x200", vec![200usize, 200, 200]), ("huge-4x256", vec![256, 256, 256, 256]), ("huge-1024x1024x512", vec![1024, 1024, 512])] {
+        let ranges: Vec<Combos> = sizes.iter().map(|s| random_range(&mut rng, *s, WeightMode::Family)).collect();
+        let case = EnumCase::collect(label, textured_flop(&mut rng, sizes.len()), ranges);
+        let (hr, cfg) = match case.build() {
+            Ok(v) => v,
+            Err(_) => continue,
+        };
+        report.evaluations += 1;
+        report.count("huge_product_prefix_comparisons", 1);
+        let run = |scope: Option<Scope>| catch(|| drive::evaluator(&cfg, &hr, scope).into_iter().take(k).map(|sd| drive::trace_key(&sd)).collect::<Vec<_>>());
+        let whole = run(None);
+        let prefix = run(Some(((0, 1), (0, 3))));
+        let far = run(Some(((0, 1), (30, 40))));
+        let case_json = scope_case(&case, &[((0, 1), (0, 3)), ((0, 1), (30, 40))]);
+        match (&whole, &prefix, &far) {
+            (Ok(w), Ok(p), Ok(f)) => {
+                let at_least = crate::refmodel::enumerate::count_capped(&cfg, k as u64) as usize;
+                if w.len() < at_least.min(k) || f.len() != w.len() || w[..p.len().min(w.len())] != p[..p.len().min(w.len())] || f != w {
+                    report.violate(
+                        format!("{}:prefix", case.signature()),
+                        format!("{} (product of range sizes {}): the first {} showdowns differ: unscoped run gives {}, scoped to [(0,1),(0,3)) {}, scoped to [(0,1),(30,40)) {}; at least {} legal deals exist", label, cfg.product(), k, w.len(), p.len(), f.len(), at_least),
+                        case_json,
+                    );
+                }
+            }
+            _ => report.violate(format!("{}:panic", case.signature()), format!("{}: a run panicked: {:?} / {:?} / {:?}", label, whole.as_ref().err(), prefix.as_ref().err(), far.as_ref().err()), case_json),
+        }
+    }
 }
 
 fn debug_profile_pass(ctx: &Ctx, base: &Baseline, report: &mut Report) {
